@@ -254,6 +254,40 @@ def body_exceptions(ctx, case):
             elif t in ("string", "empty"):
                 if x != v:
                     ctx.fail({"vals": [v], "mode": mode}, "string %r emitted as %r" % (v, x))
+    elif mode == "yaml":
+        res = ctx.mlr(["--icsv", "--oyaml", "put", "$t = typeof($x)"], stdin=gen.bstr_bytes(text))
+        if res.rc != 0:
+            ctx.fail(case, "mlr failed: %s" % res.err[:300])
+        out = res.out.decode("utf-8", "replace")
+        blocks = __import__("re").split(r"(?m)^- ", out)[1:]
+        if len(blocks) != len(vals):
+            ctx.fail(case, "YAML output has %d records for %d input records" % (len(blocks), len(vals)))
+        for v, blk in zip(vals, blocks):
+            acc = mn.infer(v, "")
+            if len(acc) != 1:
+                continue
+            t, val = acc[0]
+            ctx.case(("exc", mode, v), t in ("int", "float") and bool(JSON_NUM.match(v)))
+            if t not in ("int", "float"):
+                continue          # strings would need a YAML parser; the format round trip is C01's subject
+            m = __import__("re").search(r'(?m)^(?:  )?"?x"?: (.*)$', blk)
+            if not m:
+                ctx.fail({"vals": [v], "mode": mode}, "no x line in YAML record %r" % blk[:200])
+            x = m.group(1)
+            if JSON_NUM.match(v) and (t == "int" or any(c in v for c in ".eE")):
+                if x != v:
+                    ctx.fail({"vals": [v], "mode": mode}, "YAML output re-renders the legal JSON number %r as %r" % (v, x))
+            else:
+                # not a legal JSON number (hex, leading +, leading zeros, 1_000 ...) or an integer spelling beyond int64: re-rendered, same value
+                y = x.replace("!!float ", "").replace("!!int ", "").strip('"')
+                try:
+                    g = {".inf": float("inf"), "-.inf": float("-inf"), "+.inf": float("inf")}.get(y)
+                    if g is None:
+                        g = int(y) if t == "int" else float(y)
+                except ValueError:
+                    ctx.fail({"vals": [v], "mode": mode}, "YAML re-rendering of %r is %r" % (v, x))
+                if g != val and not (g != g and val != val):
+                    ctx.fail({"vals": [v], "mode": mode}, "YAML re-rendering of %r is %r (value changed; model %r)" % (v, x, val))
     else:
         ofmt = case["ofmt"]
         res = ctx.mlr(["--icsv", "--ocsv", "--ofmt", ofmt, "put", "$t = typeof($x)"], stdin=gen.bstr_bytes(text))
@@ -281,16 +315,17 @@ def sub_exceptions(ctx):
     safe = safe.filter(lambda s: "\n" not in s and "\r" not in s)
     strat = st.one_of(
         st.fixed_dictionaries({"vals": st.lists(safe, min_size=1, max_size=12), "mode": st.just("json")}),
+        st.fixed_dictionaries({"vals": st.lists(safe, min_size=1, max_size=12), "mode": st.just("yaml")}),
         st.fixed_dictionaries({"vals": st.lists(safe, min_size=1, max_size=12), "mode": st.just("ofmt"),
                                "ofmt": st.sampled_from(["%.4f", "%.6lf", "%.3e", "%.8le", "%10.3f", "%.0f", "%08.3lf", "%.2lf"])}))
-    ctx.hyp(strat, lambda c: body_exceptions(ctx, c), ctx.n(150, 4000))
+    ctx.hyp(strat, lambda c: body_exceptions(ctx, c), ctx.n(240, 6000))
 
 
 SUBCHECKS = [
     Sub("passthrough", sub_passthrough, body, shards={"quick": 6, "thorough": 16}, cost=3,
         rule="bystander text and order preserved through chains of reading verbs; see RULE"),
     Sub("documented_exceptions", sub_exceptions, body_exceptions, shards={"quick": 2, "thorough": 4},
-        rule="JSON output re-renders exactly the numerals that are not legal JSON numbers (same value); --ofmt re-renders exactly the floats, as C printf"),
+        rule="JSON and YAML output re-render exactly the numerals that are not legal JSON numbers (same value); --ofmt re-renders exactly the floats, as C printf"),
 ]
 
 KNOWN = {}
